@@ -103,3 +103,20 @@ def bip85_entropy(ex):
     got = bip85._entropy_from_der_path(root, "m/83696968h/0h/0h")
     want = _hmac.new(b"bip-entropy-from-k", key, "sha512").digest()
     return {"entropy_is_hmac_of_key": got == want, "length": len(got) == 64}
+
+
+@ob("C13", "slip39_share_mnemonic_roundtrip_for_every_value_length", quick=[dict(nbytes=n) for n in range(16, 33, 2)],
+    bound="a share of every legal value length (16, 18, ..., 32 bytes; the padding of the 10-bit words is 2, 6, 0, 4, 8, 2, 6, 0, 4 bits) with concrete value bytes, member index and member threshold "
+          "symbolic over their 4-bit ranges (case split by the solver, the bit-string code of the library being text): share_from_mnemonic(mnemonic_from_share(s)) == s",
+    functions=["btclib.mnemonic.slip39.mnemonic_from_share", "btclib.mnemonic.slip39.share_from_mnemonic"], outside=["symbolic share values (binary text of a symbolic integer)"], min_ok=1, timeout=600)
+def share_roundtrip(ex, nbytes):
+    mi = ex.concretize(ex.int("member_index", 0, 15))
+    mt = ex.concretize(ex.int("member_threshold", 1, 16))
+    value = bytes((37 * k + nbytes) & 0xFF for k in range(nbytes))
+    s = slip39.Share(identifier=0x5A5A & 0x7FFF, extendable=True, iteration_exponent=1, group_index=2, group_threshold=2, group_count=3,
+                     member_index=mi, member_threshold=mt, value=value)
+    try:
+        back = slip39.share_from_mnemonic(slip39.mnemonic_from_share(s))
+    except BTClibValueError:
+        return {"own_mnemonic_is_read_back": False}
+    return {"same_share": back == s}
